@@ -179,7 +179,7 @@ func runC07(c *vlib.Check) {
 	c.Rule = fmt.Sprintf("explicit-state search over transport answers: message sequences of length <=%d over sizes {8,16,24,520,1032} and top-level padded scalars (5-byte text, 9-byte byte string, integer); every Read(p) is answered with a size from {len(p),1,2,7,8,len(p)-1} "+
 		"(deviation = any answer other than len(p), bound %d, iterated); all 2^(L-1) segmentations of every stream of L<=%d bytes; truncation of every stream at every offset (with full reads and with 1-byte reads); "+
 		"announced value lengths {limit-24 .. limit+8 incl. unaligned ones, 2^31-16 .. 2^31+8, 0xBFFFFFF8, 2^32-16 .. 2^32-1} against limits {64, 1 MiB}; every answer sequence also with the limit set to the largest message of the sequence (a per-message limit must not act on the stream total); "+
-		"size histories: all ordered pairs of message sizes 16..2048 step 8 (thorough: ..8192, and triples on a 136-byte grid) on one stream, with and without that limit, and all ordered pairs of large messages {4 KiB .. 128 KiB, around powers of two}. Sending side: every ordered pair of Sends (successful, failing, failing half-way, panicking in the encoder) x 4 sizes on two streams - the second stream carries exactly its own message. The rejection is also driven through the real server (1 MiB limit): an oversized header followed by a valid request is answered once and the following bytes are not served; and a two-request stream whose Read fails once with a transient condition (deadline exceeded, temporary error, other timeout, interrupted call) at every byte offset and then goes on: the handlers receive a prefix of the sent requests and no response is written without a request. Reference model: split the byte stream at the announced padded lengths. "+
+		"size histories: all ordered pairs of message sizes 16..2048 step 8 (thorough: ..8192, and triples on a 136-byte grid) on one stream, with and without that limit, and all ordered pairs of large messages {4 KiB .. 128 KiB, around powers of two}. Sending side: every ordered pair of Sends (successful, failing, failing half-way, panicking in the encoder) x 4 sizes on two streams - the second stream carries exactly its own message. Header grammar at the top of the stream: type byte {1..10, 0, 11, 0xFF} x announced length {0,1,3,4,5,8,9,12,16,24,40, limit-8, limit, 4096, 2^31-1, 2^32-8} (well-formed for the type or not) followed by a valid message, with full and one-byte reads: the frame is taken off by its announced padded length and the following message arrives intact, a frame above the limit is refused from its 8 header bytes. The rejection is also driven through the real server (1 MiB limit): an oversized header followed by a valid request is answered once and the following bytes are not served; and a two-request stream whose Read fails once with a transient condition (deadline exceeded, temporary error, other timeout, interrupted call) at every byte offset and then goes on: the handlers receive a prefix of the sent requests and no response is written without a request. Reference model: split the byte stream at the announced padded lengths. "+
 		"states = distinct (stream, answer sequence) pairs, transitions = Recv calls", maxSeq, maxDev, segL)
 	c.Assumptions = []string{"the transport never returns more than len(p) bytes and returns at least one byte per successful Read"}
 	var seqs [][]int
@@ -413,6 +413,74 @@ func runC07(c *vlib.Check) {
 				}
 				if r.off > 8+512 {
 					c.Violation("over-limit-consumed", fmt.Sprintf("announced %d bytes, limit %d: receiver consumed %d bytes before giving up", total, limit, r.off), rep)
+				}
+			}
+		}
+	}
+	// (5) header grammar at the top of the stream: a frame whose type byte is any of the ten item types (or an invalid one) and whose
+	// announced length is any of a small alphabet - well-formed for that type or not - followed by a valid message. The receiver
+	// frames by the announced padded length whatever the type (reference model), so the following message arrives intact; a frame
+	// above the limit is refused at its header.
+	{
+		const limit = 1024
+		next := c07Message(24, 0x5A)
+		for _, ty := range []byte{1, 2, 3, 4, 5, 6, 7, 8, 9, 10, 0, 11, 0xFF} {
+			for _, vl := range []int64{0, 1, 3, 4, 5, 8, 9, 12, 16, 24, 40, limit - 8, limit, 4096, 0x7FFFFFFF, 0xFFFFFFF8} {
+				for _, oneByte := range []bool{false, true} {
+					total := 8 + (vl+7)/8*8
+					hdr := []byte{0x42, 0x00, 0x69, ty, byte(vl >> 24), byte(vl >> 16), byte(vl >> 8), byte(vl)}
+					within := total <= limit
+					var stream []byte
+					if within {
+						stream = append(append(append([]byte{}, hdr...), make([]byte, total-8)...), next...)
+					} else {
+						stream = append(append([]byte{}, hdr...), make([]byte, 64)...)
+					}
+					r := &chunkReader{data: stream}
+					if oneByte {
+						r.cuts = make([]bool, len(stream)+1)
+						for k := 1; k < len(stream); k++ {
+							r.cuts[k] = true
+						}
+					}
+					st := ttlv.NewStream(r, limit)
+					label := fmt.Sprintf("top-level frame with type byte %d announcing %d bytes (limit %d, one-byte reads %v), then a valid 24-byte message", ty, vl, limit, oneByte)
+					c.Eval([]byte(label), true)
+					states++
+					rep := map[string]any{"kind": "top-level-header", "case": label, "header": hex.EncodeToString(hdr)}
+					var v, v2 ttlv.Value
+					var err, err2 error
+					if pv, site := vlib.Catch(func() { err = st.Recv(&v) }); pv != nil {
+						c.Violation("panic:"+site, fmt.Sprintf("%s: Recv panicked: %v", label, pv), rep)
+						continue
+					}
+					if !within {
+						if err == nil {
+							c.Violation("over-limit-accepted", label+": accepted", rep)
+						} else if r.off > 8 {
+							c.Violation("over-limit-consumed", fmt.Sprintf("%s: the receiver consumed %d bytes; the header alone (8 bytes) decides", label, r.off), rep)
+						}
+						continue
+					}
+					validType := ty >= 1 && ty <= 10
+					if !validType {
+						continue // an invalid type byte ends the stream's usefulness: only "no panic" is required here (C08 covers the server's answer)
+					}
+					consumed := r.off
+					if err == nil || ttlv.IsErrEncoding(err) {
+						// the frame has been taken off the stream (as a message or as an undecodable one): exactly its bytes
+						if !oneByte && consumed < int(total) || oneByte && consumed != int(total) {
+							c.Violation("frame-extent", fmt.Sprintf("%s: %d bytes consumed, the frame has %d (err %v)", label, consumed, total, err), rep)
+							continue
+						}
+						if pv, site := vlib.Catch(func() { err2 = st.Recv(&v2) }); pv != nil {
+							c.Violation("panic:"+site, fmt.Sprintf("%s: second Recv panicked: %v", label, pv), rep)
+							continue
+						}
+						if err2 != nil || !bytes.Equal(ttlv.MarshalTTLV(v2), next) {
+							c.Violation("following-message-damaged", fmt.Sprintf("%s: the message following the frame is received as %x (err %v), sent was %x", label, ttlv.MarshalTTLV(v2), err2, next), rep)
+						}
+					}
 				}
 			}
 		}
